@@ -5,6 +5,7 @@ import (
 	"fmt"
 	"sort"
 	"strings"
+	"time"
 
 	"github.com/xjslang/xjs/ast"
 	"github.com/xjslang/xjs/lexer"
@@ -850,7 +851,126 @@ func c05Primary(c *core.Ctx) {
 	}
 }
 
+// c05Layout: grouping does not depend on where the lines break or on the parser mode. Built-in binary
+// operators continue an expression across a line break on either side in every mode (C02/C13 establish that);
+// "exactly like a built-in operator of that level" therefore means: for X at every level, every operator
+// string with line breaks before and/or after each X, in each of the four modes, parses like the same
+// string on one line in that mode, and - at levels that have a built-in operator b - like the same layout
+// with b in place of X.
+func c05Layout(c *core.Ctx) {
+	ops := []string{"X", "+", "*", "==", "=", "||"}
+	for lx := 1; lx <= 13; lx++ {
+		for mi, m := range Modes {
+			mk := func(withX bool) *c05Env {
+				e := newC05Env()
+				if withX {
+					e.pb.RegisterInfixOperator(e.regType("X"), lx, mkInfix)
+				}
+				e.pb.RegisterInfixOperator(e.regType("Y"), 7, mkInfix)
+				e.pb.RegisterPrefixOperator(e.regType("P"), mkPrefix)
+				e.pb.RegisterPostfixOperator(e.regType("Q"), mkPostfix)
+				e.pb.WithTolerantMode(m.Tolerant)
+				e.pb.WithSmartSemicolon(m.Smart)
+				return e
+			}
+			e, plain := mk(true), mk(false)
+			b := builtinAt(lx)
+			for nops := 1; nops <= 2; nops++ {
+				c05Strings(nops, ops, func(toks []string, decorated bool) {
+					if !c.Next() || c.Tick() {
+						return
+					}
+					var xs []int
+					for i, t := range toks {
+						if t == "X" {
+							xs = append(xs, i)
+						}
+					}
+					if len(xs) == 0 {
+						return
+					}
+					c.Cur(strings.Join(toks, " "))
+					flat, flatErr, pan := c05Parse(e, strings.Join(toks, " "))
+					if pan != "" {
+						return // c05Group's subject
+					}
+					// every assignment of {none, before, after, both} to every X
+					total := 1
+					for range xs {
+						total *= 4
+					}
+					for code := 1; code < total; code++ {
+						var sb, sbSub strings.Builder
+						cc := code
+						brk := map[int]bool{} // gap index g = between toks[g-1] and toks[g]
+						for _, xi := range xs {
+							if cc&1 != 0 {
+								brk[xi] = true
+							}
+							if cc&2 != 0 {
+								brk[xi+1] = true
+							}
+							cc >>= 2
+						}
+						for i, t := range toks {
+							if i > 0 {
+								sep := " "
+								if brk[i] {
+									sep = "\n"
+								}
+								sb.WriteString(sep)
+								sbSub.WriteString(sep)
+							}
+							sb.WriteString(t)
+							if t == "X" {
+								sbSub.WriteString(b)
+							} else {
+								sbSub.WriteString(t)
+							}
+						}
+						src := sb.String()
+						c.Inc("layout_cases")
+						got, gerr, pan := c05Parse(e, src)
+						if pan != "" {
+							c05LayoutReport(c, "panic", fmt.Sprintf("%q: %s", src, pan), src, lx, mi)
+							continue
+						}
+						if (gerr == "") != (flatErr == "") {
+							c05LayoutReport(c, "line-break-changes-acceptance", fmt.Sprintf("%q: error %q; on one line: error %q (a built-in binary operator continues across line breaks on either side in every mode)", src, gerr, flatErr), src, lx, mi)
+						} else if gerr == "" && got != flat {
+							c05LayoutReport(c, "line-break-changes-grouping", fmt.Sprintf("%q groups %s; on one line it groups %s", src, got, flat), src, lx, mi)
+						}
+						if b != "" {
+							c.Inc("substitution_cases")
+							g2, e2, p2 := c05Parse(plain, sbSub.String())
+							if p2 != "" {
+								continue
+							}
+							g1 := strings.ReplaceAll(got, "(bin "+b+" ", "(cin X ")
+							g2 = strings.ReplaceAll(g2, "(bin "+b+" ", "(cin X ")
+							if (gerr == "") != (e2 == "") {
+								c05LayoutReport(c, "substitution-acceptance", fmt.Sprintf("%q: error %q; with the built-in %s in place of X: error %q", src, gerr, b, e2), src, lx, mi)
+							} else if gerr == "" && g1 != g2 {
+								c05LayoutReport(c, "substitution-grouping", fmt.Sprintf("%q groups %s; with the built-in %s in place of X it groups %s", src, g1, b, g2), src, lx, mi)
+							}
+						}
+					}
+				})
+			}
+		}
+	}
+}
+
+func c05LayoutReport(c *core.Ctx, k, d, src string, lx, mi int) {
+	if !c.ShrinkOK("layout" + k + Modes[mi].String()) {
+		return
+	}
+	pl, _ := json.Marshal(c05Payload{Clause: "layout", Toks: []string{src}, LX: lx, LY: mi})
+	c.Violate(core.Violation{Kind: "layout-" + k, Config: fmt.Sprintf("X@%d,%s", lx, Modes[mi]), Case: fmt.Sprintf("%q", src), Detail: d, Payload: pl, Size: len(src)})
+}
+
 func c05Run(c *core.Ctx) {
+	c05Layout(c)
 	c05Group(c)
 	c05Primary(c)
 	c05ManyTypes(c)
@@ -899,6 +1019,20 @@ func c05Replay(pl json.RawMessage) (string, []core.Violation) {
 		}
 		return out, nil
 	}
+	if p.Clause == "layout" {
+		cx := core.NewCtx("C05", "quick", 0, 0, 1, time.Now().Add(10*time.Minute))
+		c05Layout(cx)
+		var vs []core.Violation
+		for _, v := range cx.Violations() {
+			if v.Case == fmt.Sprintf("%q", p.Toks[0]) {
+				vs = append(vs, v)
+			}
+		}
+		if len(vs) == 0 {
+			vs = cx.Violations()
+		}
+		return fmt.Sprintf("layout family re-run (X at level %d, mode %s, source %q)", p.LX, Modes[p.LY%4], p.Toks[0]), vs
+	}
 	out := fmt.Sprintf("X infix at level %d, Y at %d, P prefix, Q postfix: %s", p.LX, p.LY, strings.Join(p.Toks, " "))
 	e, tab, rerr := c05GroupEnv(p.LX, p.LY)
 	if rerr != "" {
@@ -913,7 +1047,7 @@ func c05Replay(pl json.RawMessage) (string, []core.Violation) {
 func init() {
 	core.Register(&core.PropSpec{
 		ID: "C05", Level: "model_checking",
-		Rule:     "(a) grouping: plugin tokens X,Y (infix), P (prefix), Q (postfix) registered through the public builders; for every level 1..13 of X (x level 7 of Y quick; x every level of Y thorough) every flat operator string x o y o z (and x o y o z o w thorough) over the 16 built-in binary/assignment operators + X + Y, undecorated and with every single decoration of every operand by a prefix {-,!,++,P} and/or suffix {++,Q,(),.p,[1],(d)}, is parsed by the real parser and compared with the precedence-climbing reference R-prec (infix level L = left-associative at L, prefix operand at unary level, postfix at call level, assignment right-associative, targets must be assignable); plus a substitution oracle: X at a level that has a built-in binary operator groups exactly like that operator. (b) registry: every history <= depth 4 (5 thorough) over 25 calls {RegisterTokenType x3, RegisterPrefix/Infix(2 levels)/Postfix on two custom tokens and on + ! ++ (} on one builder pair, calls on custom tokens enabled once their type is registered, replayed on fresh builders in lock-step with the registry model R-reg: ids stable per name, distinct across names, above every built-in id; occupied role => error, free role => no error; after every step a probe set of 38 inputs parses to what R-prec predicts for the MODEL's table (so a refused registration provably left the parser unchanged; from depth 4 on, the probes that mention the token of the last call). states = distinct registry model states, transitions = history steps executed on the real builders; non-trivial = operator string in which a plugin operator has a built-in operator within two tokens (every string is distinct) Added: a parser is built and a mini probe set parsed between any two registrations of every history; probes on tokens holding a prefix and a postfix/infix role; operators registered after k in {1,15..17,31..33,63..65,127..129,255..257,1000} other token types; long flat operator strings of 9..257 operators over 5 operator cycles.",
+		Rule:     "(a) grouping: plugin tokens X,Y (infix), P (prefix), Q (postfix) registered through the public builders; for every level 1..13 of X (x level 7 of Y quick; x every level of Y thorough) every flat operator string x o y o z (and x o y o z o w thorough) over the 16 built-in binary/assignment operators + X + Y, undecorated and with every single decoration of every operand by a prefix {-,!,++,P} and/or suffix {++,Q,(),.p,[1],(d)}, is parsed by the real parser and compared with the precedence-climbing reference R-prec (infix level L = left-associative at L, prefix operand at unary level, postfix at call level, assignment right-associative, targets must be assignable); plus a substitution oracle: X at a level that has a built-in binary operator groups exactly like that operator. (b) registry: every history <= depth 4 (5 thorough) over 25 calls {RegisterTokenType x3, RegisterPrefix/Infix(2 levels)/Postfix on two custom tokens and on + ! ++ (} on one builder pair, calls on custom tokens enabled once their type is registered, replayed on fresh builders in lock-step with the registry model R-reg: ids stable per name, distinct across names, above every built-in id; occupied role => error, free role => no error; after every step a probe set of 38 inputs parses to what R-prec predicts for the MODEL's table (so a refused registration provably left the parser unchanged; from depth 4 on, the probes that mention the token of the last call). states = distinct registry model states, transitions = history steps executed on the real builders; non-trivial = operator string in which a plugin operator has a built-in operator within two tokens (every string is distinct) Added: a parser is built and a mini probe set parsed between any two registrations of every history; probes on tokens holding a prefix and a postfix/infix role; operators registered after k in {1,15..17,31..33,63..65,127..129,255..257,1000} other token types; long flat operator strings of 9..257 operators over 5 operator cycles; layout x mode family: X at every level, operator strings with <= 2 operators over {X,+,*,==,=,||} and every single decoration, a line break before and/or after every X, in each of the 4 parser modes: same acceptance and grouping as on one line, and as the built-in operator of the level in the same layout.",
 		Assume:   []string{"registering a postfix role on a token that has an infix role (or the reverse) is not constrained: probes with such tokens are skipped, postfix on ( is not in the alphabet", "plugin createExpr callbacks always request their operand"},
 		QuickSec: 240, ThorSec: 1800, Run: c05Run, Replay: c05Replay,
 		Evals: "grouping_cases", Nontriv: "cases_mixing_plugin_and_builtin_operators", States: "registry_states", Trans: "registry_transitions",
